@@ -51,6 +51,7 @@ def gen_history(seed, universe, cfg):
 
     threads = []  # each: list of actions in order
     shared_ctx = {}  # target -> cid list
+    ctx_funcs = {}  # cid -> functions requested on it so far
     next_c = [0]
     next_r = [0]
 
@@ -92,6 +93,15 @@ def gen_history(seed, universe, cfg):
                 acts.append(["ctx", cid, t])
             else:
                 cid = rq.choice(pool)
+                # naming stress: the same function (hence the same argument and local names) again on this
+                # context with another signature, or another function of the same family
+                earlier = ctx_funcs.get(cid, [])
+                if earlier and rq.random() < 0.5:
+                    f0 = rq.choice(earlier)
+                    same = [q for q in by_target[t] if q["func"] == f0 or q["func"].split("_")[-1] == f0.split("_")[-1]]
+                    if same:
+                        r = rq.choice(same)
+            ctx_funcs.setdefault(cid, []).append(r["func"])
             acts += steps(new_rid(), cid, r, debug, "bg", True)
             if rq.random() < 0.2:
                 acts.append(["print", acts[-1][1] if acts[-1][0] == "print" else acts[-1][2][1], debug, "bg"])
